@@ -8,11 +8,11 @@ Line-protocol driver of the C15 models (stateless: every line is a whole case).
        -> ok closes=.. pos=.. pending=.. panic=.. | <i>:<i|w|r|x>:<res>,<res>.. ...   or   stuck@<k>
     neg <act>...                              act = cl<i> | co<i>.<0|1>.<maxChunk>
        -> ok remaining=.. made=<none | v.chunk.consumers,..> panic=..                   or   stuck@<k>
-    prog <repaired> <content hex> ; <expr, postfix> ; <method>
+    prog <repaired> <ratRepaired> <content hex> ; <expr, postfix> ; <method>
        expr:   b.err<k> b.bytes b.rat b.rd.<q> b.ch.<q>  (q = g | c | e<k>)
                cs.<l|r>.<d|r>  cc.<l|r>  wt.<0|k>  eh
        method: size | iw | ra <off> <len> | proto <max> | bs <max> | cr <off> <all|close> | rdr <all|close> | discard
-       -> res=<ok:hex | unsound:hex | err:k | size:n | panic> eof=.. cerr=.. wterm=.. waited=..   or   buildpanic
+       -> res=<ok:hex | unsound:hex | err:k | size:n | panic> eof=.. cerr=.. wterm=.. waited=.. closes=<n|->   or   buildpanic
 -/
 open BB.Driver BB.Mux
 
@@ -176,14 +176,16 @@ def showOut (m : Method) (o : MOut) : String :=
 
 def doProg (args : List String) : String :=
   match splitOn args ";" with
-  | [[rep, d], expr, meth] =>
-    match nat? rep, hexBytes? d, parseExpr expr, parseMethod meth with
-    | some rep, some d, some e, some m =>
-      if rep > 1 then "bad-op" else
-      match exec { d := d, repaired := rep == 1 } e m with
-      | some o => showOut m o
+  | [[rep, rat, d], expr, meth] =>
+    match nat? rep, nat? rat, hexBytes? d, parseExpr expr, parseMethod meth with
+    | some rep, some rat, some d, some e, some m =>
+      if rep > 1 || rat > 1 then "bad-op" else
+      let env : Env := { d := d, repaired := rep == 1, ratRepaired := rat == 1 }
+      let cl := match closes env e with | some n => toString n | none => "-"
+      match exec env e m with
+      | some o => showOut m o ++ s!" closes={cl}"
       | none => "buildpanic"
-    | _, _, _, _ => "bad-op"
+    | _, _, _, _, _ => "bad-op"
   | _ => "bad-op"
 
 def step15 (s : Unit) (line : String) : Unit × String :=
